@@ -1,3 +1,4 @@
+import Firebolt.TransExpected
 import Firebolt.Properties.TransBase
 import Firebolt.Properties.C01
 import Firebolt.Properties.ExecFlow
@@ -199,14 +200,9 @@ theorem translated_startWorkers_head_tail (σ : Env) :
 /-- setupNodes, translated: every node handed to it is initialised and then set up with its own parameters — unconditionally,
 exactly once per call —, a failing Setup ends the process, and the error handler and every child are treated alike -/
 theorem translated_setupNodes (σ : Env) :
-    obs Trans.exSetupNodes σ =
-      ⟨[("node.NodeProcessor.Init", [σ "node.Config.ID", σ "e.fbContext"]),
-        ("node.NodeProcessor.Setup", [σ "node.Config.Params"])] ++
-        (if σ "node.NodeProcessor.Setup#0" ≠ 0 then [("os.Exit", [1])] else []) ++
-        (if σ "node.ErrorHandler" ≠ 0 then [("e.setupNodes", [σ "node.ErrorHandler"])] else []) ++
-        [("foreach node.Children: e.setupNodes", [σ "child"])], none, false⟩ := by
+    obs Trans.exSetupNodes σ = TransExpected.exSetupNodes σ := by
   by_cases h1 : σ "node.NodeProcessor.Setup#0" = 0 <;> by_cases h2 : σ "node.ErrorHandler" = 0 <;>
-  minigo_simp [Trans.exSetupNodes, h1, h2]
+  minigo_simp [TransExpected.exSetupNodes, Trans.exSetupNodes, h1, h2]
 
 end Translated
 
